@@ -322,3 +322,13 @@ Definition wf_options (o : poptions) : Prop :=
 Definition wf_periph (p : periph) : Prop :=
   0 <= pe_addr p < 128 /\ is_byte (pe_retry p) /\ all_bytes (pe_pi_i p) /\ all_bytes (pe_pi_q p) /\
   wf_options (pe_opts p).
+
+(* ------------------------------------------------------------------ reset_address (added after phase 1)
+   Peripheral::reset_address(new_address): `*self = Self::new(new_address, options, pi_i, pi_q)
+   .with_diag_buffer(diag_buffer)`.  Everything is reset (state Offline, retry counter 0, frame count bit
+   First, stored diagnostics gone, both diagnostics flags false) except the options, the two process images
+   (contents kept) and the extended diagnostics buffer (kept, its length set to 0).  No event is raised.
+   It does so for every argument, also when new_address is the current address. *)
+Definition p_reset_address (p : periph) (new_address : Z) : periph :=
+  mkPeriph new_address pstate_default 0 fcbit_default (pe_pi_i p) (pe_pi_q p) None
+           (mkExt (x_size (pe_ext p)) []) false false (pe_opts p).
